@@ -23,4 +23,4 @@ RULE = ("case = rule set with 1-4 start conditions, <<EOF>> rules (none / unqual
         "EOF actions that terminate, return or restart, driver that points yyin at a new "
         "source or calls yyrestart after termination")
 REQUIRED = {"eof": 50, "eof_rule": 5, "wrap_next": 10, "wrap_next_empty": 1, "newin": 1,
-            "restart": 1, "eof_empty_source": 1}
+            "restart": 1, "eof_empty_source": 1, "include_mode": 1, "wrap_pop": 3}
